@@ -281,7 +281,8 @@ func genCase(layer string) func(t *rapid.T) discCase {
 	return func(t *rapid.T) discCase {
 		c := discCase{Layer: layer}
 		if rapid.IntRange(0, 3).Draw(t, "broadcast.set") != 0 || layer == "socket" {
-			c.Cfg.HasBroadcast, c.Cfg.BroadcastIP, c.Cfg.BroadcastPort = true, [4]byte{192, 168, 1, 255}, gen.Port(t, "broadcast.port")
+			c.Cfg.HasBroadcast, c.Cfg.BroadcastPort = true, gen.Port(t, "broadcast.port")
+			c.Cfg.BroadcastIP = rapid.SampledFrom([][4]byte{{192, 168, 1, 255}, {192, 168, 1, 255}, {255, 255, 255, 255}, {0, 0, 0, 0}, {127, 0, 0, 1}, {10, 255, 255, 255}, {192, 168, 1, 100}}).Draw(t, "broadcast.ip")
 		}
 		l := spec.Responses["GetDevices"]
 		n := rapid.IntRange(0, 12).Draw(t, "datagrams")
